@@ -75,6 +75,7 @@ type Run struct {
 	cleanup    []func()
 	findings   map[string]string
 	findingsN  map[string]int
+	ended      bool
 }
 
 var knownSigs = func() map[string]bool {
@@ -219,11 +220,33 @@ func (r *Run) schedHash(id, point string) {
 	r.schedH = r.schedH*1099511628211 ^ h.Sum64()
 }
 
-// Failed reports whether a violation was already recorded.
+// Failed reports whether a violation or trouble was already recorded.
 func (r *Run) Failed() bool {
 	r.mu.Lock()
 	defer r.mu.Unlock()
-	return r.viol != nil
+	return r.viol != nil || r.trouble != "" || r.ended
+}
+
+// EndRun ends the run early without a verdict (e.g. after a known finding made
+// further checking meaningless): harness tasks stop at their next Yield.
+func (r *Run) EndRun() {
+	r.mu.Lock()
+	r.ended = true
+	r.mu.Unlock()
+	panic(stopRun{})
+}
+
+// Yield is the scheduling point of harness code (between operations). Once the
+// run has failed every harness task ends at its next Yield, while the
+// scheduler keeps deciding, so the system under test winds down in an orderly
+// way (no free-running goroutines).
+func (r *Run) Yield(point string) {
+	if r.Sched != nil {
+		r.Sched.Yield(point)
+	}
+	if r.Failed() {
+		panic(stopRun{})
+	}
 }
 
 // Violation records a violation (first one wins) and aborts the calling task.
@@ -237,9 +260,6 @@ func (r *Run) Violation(class, sig, format string, args ...interface{}) {
 		r.viol = &Violation{Class: class, Sig: sig, Msg: fmt.Sprintf(format, args...)}
 	}
 	r.mu.Unlock()
-	if r.Sched != nil {
-		r.Sched.Free()
-	}
 	panic(stopRun{})
 }
 
@@ -250,9 +270,6 @@ func (r *Run) Trouble(format string, args ...interface{}) {
 		r.trouble = fmt.Sprintf(format, args...)
 	}
 	r.mu.Unlock()
-	if r.Sched != nil {
-		r.Sched.Free()
-	}
 	panic(stopRun{})
 }
 
@@ -276,9 +293,6 @@ func (r *Run) recoverTask() {
 			r.trouble = fmt.Sprintf("unexpected panic: %v\n%s", x, debug.Stack())
 		}
 		r.mu.Unlock()
-		if r.Sched != nil {
-			r.Sched.Free()
-		}
 	}
 }
 
@@ -634,6 +648,16 @@ func Worker(t *testing.T, c *Check) {
 			for _, l := range res.Log {
 				fmt.Println("  trace:", l)
 			}
+			if res.Viol != nil {
+				fmt.Printf("REPLAY-VIOLATION property=%s class=%s sig=%s\n  %s\n", c.ID, res.Viol.Class, res.Viol.Sig, res.Viol.Msg)
+				RemoveScratch()
+				os.Exit(1)
+			}
+			if !c.Liveness || res.Trouble != "" {
+				fmt.Printf("REPLAY-TROUBLE stuck: %s %s\n", res.Stuck, res.Trouble)
+				RemoveScratch()
+				os.Exit(2)
+			}
 			fmt.Printf("REPLAY-VIOLATION property=%s class=stuck sig=stuck:%s\n  %s\n", c.ID, stuckSig(res.Stuck), res.Stuck)
 			RemoveScratch()
 			os.Exit(1)
@@ -670,7 +694,13 @@ func Worker(t *testing.T, c *Check) {
 
 	rep := &Report{Property: c.ID, Worker: w, Probes: map[string]int{}, Faults: map[string]int{}}
 	StuckHandler = func(res *Result) {
-		if c.Liveness {
+		if res.Viol != nil {
+			// a violation was found and the teardown of the run hung afterwards
+			p := writeScenario(c, res, tier, false, res.Draws)
+			rep.Violations = append(rep.Violations, ViolationEntry{*res.Viol, res.Seed, p})
+		} else if res.Trouble != "" {
+			rep.Troubles = append(rep.Troubles, fmt.Sprintf("seed=%d: %s", res.Seed, res.Trouble))
+		} else if c.Liveness {
 			p := writeScenario(c, res, tier, false, res.Draws)
 			rep.Violations = append(rep.Violations, ViolationEntry{Violation{Class: "stuck", Sig: "stuck:" + stuckSig(res.Stuck), Msg: res.Stuck}, res.Seed, p})
 		} else {
